@@ -38,6 +38,8 @@ import (
 )
 
 // env is what one process of the driver shares.
+var processStart = time.Now()
+
 type env struct {
 	o          *common.Opts
 	lab        *atlab.Lab
@@ -481,6 +483,14 @@ func (e *env) batch(t *trace.T, bi, workers, perWorker, churns, hotN int, hotD t
 	t.Add("Hot", "workers", hr.workers, "iters", hr.iters, "errs", hr.errs, "panics", hr.panics, "hung", hr.hung,
 		"sig", fmt.Sprintf("hot:hung=%v:panics=%v", hr.hung > 0, hr.panics > 0))
 
+	if e.o.Thorough() {
+		// the client's table-metadata cache refreshes itself on a one-minute ticker (from the moment the handle was
+		// opened): the thorough tier lets the process live through one tick, so that what the refresh takes from
+		// the pools is part of what must be back at quiescence
+		if d := time.Until(processStart.Add(63 * time.Second)); d > 0 {
+			time.Sleep(d)
+		}
+	}
 	// the coordinator times out what is still undecided, then everything comes to rest
 	e.co.sweep()
 	e.co.p2.Wait()
